@@ -18,8 +18,10 @@ def unordered_sym(p):
     bins = named_bins(layout, p["kind"], p.get("chrom_names"))
     tables = []
     for i, K in enumerate(Ks):
-        b1, b2, v = sym_pixels(n, K, upper, prefix=f"t{i}_")
+        b1, b2, v = sym_pixels(n, K, upper, prefix=f"t{i}_") if not p.get("in_chunk_dups") else _nonstrict(n, K, upper, f"t{i}_")
         tables.append((b1, b2, v))
+    if p.get("in_chunk_dups"):
+        cover("pixel_twice_in_one_chunk", or_(*[and_(b1[q] == b1[q - 1], b2[q] == b2[q - 1]) for b1, b2, v in tables for q in range(1, len(b1))]))
     R = sum(Ks)
     buf = sym_int("mergebuf", 1, R + 1)
     mm = sym_int("max_merge", 1, len(Ks) + 1)
@@ -32,6 +34,8 @@ def unordered_sym(p):
         tables = [(b1, b2, [SReal.of(x) / 4 for x in v]) for b1, b2, v in tables]   # quarter counts through dtypes={"count": float}
     given = tables
     extra = {}
+    if p.get("in_chunk_dups"):
+        extra["dupcheck"] = False    # a chunk may list a pixel more than once when the duplicate check is off: the records are summed like any others
     if p.get("ensure_sorted"):
         # "or sorting requested": records inside each chunk arrive in a solver-chosen order and ensure_sorted=True has to repair it
         import itertools
@@ -71,6 +75,19 @@ def unordered_sym(p):
     return dict(pix=pix, sum=attrs["sum"])
 
 
+def _nonstrict(n, K, upper, prefix):
+    """K records sorted by (bin1, bin2), the same pixel may occur more than once"""
+    b1 = [sym_int(f"{prefix}r{q}", 0, n - 1) for q in range(K)]
+    b2 = [sym_int(f"{prefix}c{q}", 0, n - 1) for q in range(K)]
+    v = [sym_int(f"{prefix}v{q}", 1, 9) for q in range(K)]
+    for q in range(K):
+        if upper:
+            CTX.add(b1[q].e <= b2[q].e)
+        if q:
+            CTX.add(z3.Or(b1[q - 1].e < b1[q].e, z3.And(b1[q - 1].e == b1[q].e, b2[q - 1].e <= b2[q].e)))
+    return b1, b2, v
+
+
 def unordered_real(p, inputs):
     import cooler
     layout, Ks, upper = p["layout"], p["Ks"], p["upper"]
@@ -81,6 +98,8 @@ def unordered_real(p, inputs):
         tables = [(b1, b2, [x / 4 for x in v]) for b1, b2, v in tables]
     given = tables
     extra = {}
+    if p.get("in_chunk_dups"):
+        extra["dupcheck"] = False
     if p.get("ensure_sorted"):
         import itertools
         given = []
@@ -124,6 +143,8 @@ def _cases(tier):
             if not upper and len(Ks) > 3:
                 continue
             out.append(dict(layout=list(layout), kind=kind, Ks=list(Ks), upper=upper))
+    # the duplicate check switched off and a pixel listed twice inside one chunk: summed like records from different chunks
+    out.append(dict(layout=[2], kind="fixed", Ks=[2, 1], upper=True, in_chunk_dups=True))
     # a user dtype for the value column (float with fractional values) must survive both merge passes
     out.append(dict(layout=[2], kind="fixed", Ks=[1, 1, 1], upper=True, float_counts=True))
     out.append(dict(layout=[1, 2], kind="variable", Ks=[1, 1, 1], upper=True, chrom_names=["chr2", "chr10"]))
@@ -179,7 +200,7 @@ bp_sym, bp_real = both(breakpoints_body)
 
 
 CHECKS = [
-    Check("unordered", _cases, unordered_sym, unordered_real, labels=("two_pass", "empty_chunk", "repeated_pixel", "chunk_unsorted"),
+    Check("unordered", _cases, unordered_sym, unordered_real, labels=("two_pass", "empty_chunk", "repeated_pixel", "pixel_twice_in_one_chunk", "chunk_unsorted"),
           doc="create_cooler(ordered=False): chunks in arbitrary order, symbolic merge buffer and fan-in (one- and two-pass merge) "
               "== per-pixel sum of all records; output schema-valid",
           bounds=dict(quick="<=4 chunks, <=2 records each, n<=3 bins, mergebuf 1..R+1, max_merge 1..m+1", thorough="<=5 chunks, <=3 records each, n<=4"),
